@@ -40,6 +40,8 @@ type Sched struct {
 	autoN   int
 	// NameFor derives a logical name for an unknown goroutine from its first hook.
 	NameFor func(point, key string, n int) string
+	// ParkIf, when set, restricts parking to the yield points it accepts (others only trace).
+	ParkIf func(point, key string) bool
 }
 
 func goid() int64 {
@@ -90,7 +92,7 @@ func (s *Sched) Yield(point, key string) {
 	s.mu.Lock()
 	name := s.nameOf(g, point, key)
 	s.trace = append(s.trace, Event{name, point, key})
-	if !s.active {
+	if !s.active || (s.ParkIf != nil && !s.ParkIf(point, key)) {
 		s.mu.Unlock()
 		return
 	}
